@@ -26,8 +26,9 @@ pub fn run(ctx: &Ctx) -> i32 {
     let n = sp.size();
     let base = simple_box(zone("D3"));
     let h_s = {
-        let t = climatedata::total_radiation_in_july_by_orientation(&zone("D3"));
-        t[&Orientation::S]
+        let t = climatedata::MONTHLYRADDATA.lock().unwrap();
+        let r = t.iter().find(|r| r.zone == zone("D3") && r.orientation == Orientation::S).unwrap();
+        r.dir[6] + r.dif[6]
     };
 
     #[derive(Default)]
